@@ -181,6 +181,10 @@ func NewProfileSamplesInsertService(opts model.InsertServiceOpts) service.IInser
 				logger.Info("profileSeriesData")
 				return 0, nil, fmt.Errorf("invalid request samples insert")
 			}
+			if len(profileSeriesData.TimestampNs) == 0 {
+				// nothing to insert: do not append an empty array row to the shared batch
+				return 0, res, nil
+			}
 			acquirer := (&profileSamplesAcquirer{}).fromIFace(res)
 			//snap := acquirer.snapshot()
 			s1 := res[0].Size()
